@@ -18,6 +18,7 @@ def run(ctx):
     ctx.uses('statistics', 'utils')
     ctx.assume(N.STAT_AXIOM_REASONS[2])
     ctx.assume('real-number semantics; observations and weights are finite numbers (NaN and negative weights are refused by register)')
+    ctx.assume('another instance handed to a method (merge) is a different object than self and is between two of its own method calls: its fields lie in the class invariant')
     from ..statrules import memo_soundness
     memo_soundness(ctx, 'R10.8', ['statistics'])
     ctx.rule('R10.1', 'every weighted-tally query and register is total (numeric abstract interpretation)')
